@@ -121,7 +121,17 @@ pub fn gen_session(rng: &mut Rng, o: &SessionOpts) -> Scenario {
             }
         } else if rng.chance(1, 8) && !workload::forced_move_pool().is_empty() {
             // exactly one legal move: the shortcut every engine is tempted to take
-            (rng.pick(workload::forced_move_pool()).clone(), vec![])
+            if rng.chance(1, 3) && !workload::forced_special_pool().is_empty() {
+                // ... and that one move is an en-passant capture (of a checking pawn), or every
+                // move is a promotion; reached by the double step or given as FEN
+                let x = rng.pick(workload::forced_special_pool());
+                match &x.pre {
+                    Some((pre, m)) if rng.chance(1, 2) => (pre.clone(), vec![*m]),
+                    _ => (x.pos.clone(), vec![]),
+                }
+            } else {
+                (rng.pick(workload::forced_move_pool()).clone(), vec![])
+            }
         } else {
             let g = workload::gen_game(rng, 24);
             (g.start, g.moves)
